@@ -283,7 +283,18 @@ func (amf0) ReadUndefinedOrUnsupported(b []byte) (int, error) {
 // @return ObjectPairArray: ...
 // @return int: 读取时从 b 消耗的字节大小
 // @return error: ...
+// maxAmf0NestingDepth limits how deep containers (object, ecma array, strict array) may nest in
+// input that is being decoded, so that hostile input cannot exhaust the goroutine stack.
+const maxAmf0NestingDepth = 64
+
 func (amf0) ReadObject(b []byte) (ObjectPairArray, int, error) {
+	return Amf0.readObject(b, 0)
+}
+
+func (amf0) readObject(b []byte, depth int) (ObjectPairArray, int, error) {
+	if depth >= maxAmf0NestingDepth {
+		return nil, 0, nazaerrors.Wrap(base.ErrAmfInvalidType)
+	}
 	if len(b) < 1 {
 		return nil, 0, nazaerrors.Wrap(base.ErrAmfTooShort)
 	}
@@ -305,7 +316,7 @@ func (amf0) ReadObject(b []byte) (ObjectPairArray, int, error) {
 		index += l
 
 		var readErr error
-		ops, index, readErr = Amf0.read(b, index, k, ops)
+		ops, index, readErr = Amf0.read(b, index, k, ops, depth+1)
 		if readErr != nil {
 			return ops, index, readErr
 		}
@@ -316,6 +327,13 @@ func (amf0) ReadObject(b []byte) (ObjectPairArray, int, error) {
 
 // ReadArray Amf0TypeMarkerEcmaArray
 func (amf0) ReadArray(b []byte) (ObjectPairArray, int, error) {
+	return Amf0.readArray(b, 0)
+}
+
+func (amf0) readArray(b []byte, depth int) (ObjectPairArray, int, error) {
+	if depth >= maxAmf0NestingDepth {
+		return nil, 0, nazaerrors.Wrap(base.ErrAmfInvalidType)
+	}
 	if len(b) < 5 {
 		return nil, 0, nazaerrors.Wrap(base.ErrAmfTooShort)
 	}
@@ -334,7 +352,7 @@ func (amf0) ReadArray(b []byte) (ObjectPairArray, int, error) {
 		index += l
 
 		var readErr error
-		ops, index, readErr = Amf0.read(b, index, k, ops)
+		ops, index, readErr = Amf0.read(b, index, k, ops, depth+1)
 		if readErr != nil {
 			return ops, index, readErr
 		}
@@ -349,6 +367,13 @@ func (amf0) ReadArray(b []byte) (ObjectPairArray, int, error) {
 }
 
 func (amf0) ReadStrictArray(b []byte) (ObjectPairArray, int, error) {
+	return Amf0.readStrictArray(b, 0)
+}
+
+func (amf0) readStrictArray(b []byte, depth int) (ObjectPairArray, int, error) {
+	if depth >= maxAmf0NestingDepth {
+		return nil, 0, nazaerrors.Wrap(base.ErrAmfInvalidType)
+	}
 	if len(b) < 5 {
 		return nil, 0, nazaerrors.Wrap(base.ErrAmfTooShort)
 	}
@@ -361,7 +386,7 @@ func (amf0) ReadStrictArray(b []byte) (ObjectPairArray, int, error) {
 	var ops ObjectPairArray
 	for i := 0; i < count; i++ {
 		var readErr error
-		ops, index, readErr = Amf0.read(b, index, "", ops)
+		ops, index, readErr = Amf0.read(b, index, "", ops, depth+1)
 		if readErr != nil {
 			return ops, index, readErr
 		}
@@ -383,7 +408,7 @@ func (amf0) ReadObjectOrArray(b []byte) (ObjectPairArray, int, error) {
 	return nil, 0, base.NewErrAmfInvalidType(b[0])
 }
 
-func (amf0) read(b []byte, index int, k string, ops ObjectPairArray) (ObjectPairArray, int, error) {
+func (amf0) read(b []byte, index int, k string, ops ObjectPairArray, depth int) (ObjectPairArray, int, error) {
 	if len(b)-index < 1 {
 		return nil, 0, nazaerrors.Wrap(base.ErrAmfTooShort)
 	}
@@ -417,21 +442,21 @@ func (amf0) read(b []byte, index int, k string, ops ObjectPairArray) (ObjectPair
 		}
 		index += l
 	case Amf0TypeMarkerObject:
-		v, l, err := Amf0.ReadObject(b[index:])
+		v, l, err := Amf0.readObject(b[index:], depth)
 		if err != nil {
 			return nil, 0, err
 		}
 		ops = append(ops, ObjectPair{k, v})
 		index += l
 	case Amf0TypeMarkerEcmaArray:
-		v, l, err := Amf0.ReadArray(b[index:])
+		v, l, err := Amf0.readArray(b[index:], depth)
 		if err != nil {
 			return nil, 0, err
 		}
 		ops = append(ops, ObjectPair{k, v})
 		index += l
 	case Amf0TypeMarkerStrictArray:
-		v, l, err := Amf0.ReadStrictArray(b[index:])
+		v, l, err := Amf0.readStrictArray(b[index:], depth)
 		if err != nil {
 			return nil, 0, err
 		}
